@@ -25,6 +25,12 @@ def h1(a):
     return _ct().IntType(int(a) + 1)
 
 
+def hany(*args):
+    """Accepts whatever it is given (never inspects its arguments)."""
+    _rec("hany", args)
+    return _ct().IntType(40 + len(args))
+
+
 def h2(a, b):
     _rec("h2", (a, b))
     return _ct().IntType(int(a) * 1000 + int(b))
